@@ -624,7 +624,8 @@ pub fn explore<S: Subject>(s: &S, b: &Bounds) -> Report {
     }
     rep.wall_s = t0.elapsed().as_secs_f64();
     for l in s.required_labels() {
-        if !rep.label_hits.contains_key(&l) {
+        // a run that found violations is not vacuous; the guard yields to them
+        if rep.violations.is_empty() && !rep.label_hits.contains_key(&l) {
             machinery_failure(&format!("{}: vacuous exploration, letter {l} never fired", s.name()));
         }
     }
@@ -878,8 +879,8 @@ impl Run {
             }
         }
 
-        // vacuity guards
-        for r in &self.reports {
+        // vacuity guards (they yield to violations: a run that found one is not vacuous)
+        for r in self.reports.iter().filter(|_| all.is_empty()) {
             if r.transitions == 0 {
                 machinery_failure(&format!("{}: no transitions explored", r.subject));
             }
